@@ -14,6 +14,7 @@ mut("c01_push_lt_only_gt4", "src/blob/index/core.rs",
     "while pos < v.len() && v[pos].timestamp() <= h.timestamp() {",
     "while pos < v.len() && (v[pos].timestamp() < h.timestamp() || (v.len() <= 4 && v[pos].timestamp() == h.timestamp())) {",
     ["C01"], "mis-orders ties only once a key has more than four versions (binary-search insertion path)")
+mut("c01_blobs_sorted_as_strings", "src/storage/core.rs", "        blobs.sort_by_key(Blob::id);", "        blobs.sort_by_key(|b| b.id().to_string());", ["C01", "C03"], "blobs ordered by the decimal string of their id at start-up: wrong only from 11 blobs on (10 < 9)")
 mut("c01_latest_ge", "src/storage/read_result.rs", """    pub fn latest(self, other: ReadResult<Entry>) -> ReadResult<Entry> {
         if other.timestamp() > self.timestamp() {""", """    pub fn latest(self, other: ReadResult<Entry>) -> ReadResult<Entry> {
         if other.timestamp() >= self.timestamp() {""", ["C01"], "cross-blob tie goes to the older blob")
